@@ -51,7 +51,21 @@ theorem C33_tolerated_sync_ok (reads : List (ReadKind × Outcome))
   intro r hr
   simp [h r hr]
 
+/-- a body that breaks while it is read is a FAILED read, for every kind of read, and breaks the
+    sync — it must never be mistaken for "the object is corrupt" (= partial upload) -/
+theorem C33_body_error_breaks (k : ReadKind) :
+    readFailed k .bodyError = true ∧ breaksSync k .bodyError = true := by
+  cases k <;> simp [readFailed, breaksSync]
+
 -- ---------------------------------------------------------------- regenerated facts
+
+/-- loadMeta reads the whole body first (an I/O error is returned as a plain "read meta file"
+    error) and only then decodes it (only a decode error means "corrupted") … -/
+theorem C33_fact_loadMetaBody : Thanos.Facts.loadMetaBodyCalls = ["io.ReadAll", "json.Unmarshal"] := by decide
+theorem C33_fact_loadMetaReadErr :
+    Thanos.Facts.loadMetaReadErrAction = "err != nil => return nil, errors.Wrapf(err, \"read meta file: %v\", metaFile)" := by decide
+/-- … and so does ReadMarker for the deletion / no-compact marks -/
+theorem C33_fact_readMarkerBody : Thanos.Facts.readMarkerBodyCalls = ["io.ReadAll", "json.Unmarshal"] := by decide
 
 /-- fetchMetadata: not-found and corrupted meta.json make the block partial, every other cause
     of a loadMeta error is counted in metaErrs … -/
@@ -80,6 +94,7 @@ theorem C33_fact_syncMetasErrAction :
 example : iteration [(.listing, .ok), (.getMeta, .notFound), (.getDeletionMark, .notFound),
     (.getDeletionMark, .failed), (.getNoCompactMark, .ok)] ["delete A", "upload B"] = (true, []) := by decide
 -- the same sync without the failure lets the compactor work
+example : iteration [(.getMeta, .bodyError)] ["delete A"] = (true, []) := by decide
 example : iteration [(.listing, .ok), (.getMeta, .notFound), (.getDeletionMark, .notFound),
     (.getNoCompactMark, .corrupt)] ["delete A", "upload B"] = (false, ["delete A", "upload B"]) := by decide
 
